@@ -492,6 +492,117 @@ def f():
     xs = [1]
     ys = operator.iadd(xs, [2])
     return ys is xs, xs, operator.iadd(1, 2), functools.reduce(operator.iadd, [1.5, 2, 3], 0), operator.imul(3, 4), operator.isub(5, 1)
+---
+class P:
+    K = 3
+    def __init__(self, x, y=0):
+        self.x = x
+        self.y = y
+    def __eq__(self, o):
+        return isinstance(o, P) and abs(self.x - o.x) < 0.5
+    def __lt__(self, o):
+        return self.x < o.x
+    def __hash__(self):
+        return 7
+    def __add__(self, o):
+        return P(self.x + o.x, self.y + o.y)
+    def __len__(self):
+        return int(self.x)
+    @property
+    def norm(self):
+        return abs(self.x) + abs(self.y)
+    @property
+    def tag(self):
+        return self._tag
+    @tag.setter
+    def tag(self, v):
+        self._tag = v * 2
+    @classmethod
+    def origin(cls):
+        return cls(0, 0)
+    @staticmethod
+    def twice(v):
+        return 2 * v
+def f():
+    a, b, c = P(1, 2), P(1.2, 5), P(4, -1)
+    c.tag = 5
+    s = a + c
+    ps = sorted([c, a, b])
+    return (a == b, a != c, a in [c, b], [p.x for p in ps], min([c, a]).x, max(c, a, key=lambda p: p.y).x, a.norm, c.tag, P.origin().x, P.K, a.K, P.twice(4), a.twice(3),
+            s.x, s.y, sum([a, c], P(0)).x, bool(P(0)), bool(a), len({a: 1, b: 2}), getattr(a, 'norm'), hasattr(a, 'tag'), hasattr(c, 'tag'))
+---
+class Bag:
+    def __init__(self, items):
+        self.items = list(items)
+    def __iter__(self):
+        return iter(self.items)
+    def __contains__(self, v):
+        return v in self.items
+    def __getitem__(self, i):
+        return self.items[i]
+class Seq:
+    def __init__(self, n):
+        self.n = n
+    def __getitem__(self, i):
+        if i >= self.n:
+            raise IndexError(i)
+        return i * i
+class Count:
+    def __init__(self, n):
+        self.n = n
+        self.i = 0
+    def __iter__(self):
+        return self
+    def __next__(self):
+        if self.i >= self.n:
+            raise StopIteration
+        self.i += 1
+        return self.i
+def f():
+    b = Bag([3, 1, 2])
+    x, y, z = b
+    return (list(b), sorted(b), 2 in b, 5 in b, [v for v in Seq(4)], list(Seq(3)), sum(Seq(4)), list(Count(3)), max(Count(4)), list(zip(b, Count(2))), x, y, z,
+            next(iter(b)), list(reversed(list(b))), any(v > 2 for v in b), dict(enumerate(b)), [*b, *Seq(2)], b[1], min(b))
+---
+class Base:
+    scale = 2
+    def __init__(self, v):
+        self.v = v
+    def value(self):
+        return self.v * self.scale
+    def describe(self):
+        return 'base %s' % self.value()
+    def __helper(self):
+        return 'private of Base'
+    def call_helper(self):
+        return self.__helper()
+class Child(Base):
+    scale = 3
+    def __init__(self, v, w):
+        super().__init__(v)
+        self.w = w
+    def value(self):
+        return super().value() + self.w
+    def __helper(self):
+        return 'private of Child'
+    def call_mine(self):
+        return self.__helper()
+def f():
+    c = Child(2, 1)
+    b = Base(5)
+    return c.value(), c.describe(), b.describe(), c.call_helper(), c.call_mine(), isinstance(c, Base), isinstance(b, Child), type(c).__name__, getattr(c, '_Child__helper')(), getattr(c, '_Base__helper')()
+---
+import itertools as _it
+from functools import partial as _partial
+import operator as _op
+_TABLE = ((_op.lt, 'min'), (_op.gt, 'max'))
+_PAIRS = tuple(_it.product((0, 1), repeat=2))
+A, B = 10, 20
+def _apply(kind, a, b):
+    return next((name for test, name in _TABLE if test(a, b)), 'tie')
+def f():
+    g = _partial(_apply, 'k')
+    return [g(a, b) for a, b in _PAIRS], A + B, list(_it.islice(_it.count(A), 2))
 '''
 
 
@@ -518,8 +629,39 @@ def harness():
     return _FN[0]
 
 
+def interpreted_module(src):
+    """a snippet with classes / several functions: written as the module tracklib.snip of a scratch package and read by the loader,
+    as the repository is"""
+    import shutil
+    import tempfile
+    from tlint.loader import Program
+    from tlint.report import Ctx
+    from tlint import absint
+    d = tempfile.mkdtemp(prefix='tlint-selftest-')
+    try:
+        os.makedirs(os.path.join(d, 'tracklib'))
+        open(os.path.join(d, 'tracklib', '__init__.py'), 'w').close()
+        with open(os.path.join(d, 'tracklib', 'snip.py'), 'w') as fh:
+            fh.write(src + '\n')
+        ctx = Ctx(Program(d), 'C01', 'quick', 0)
+        fn = absint.funcs(ctx, 'tracklib.snip', {})
+        f = ctx.prog.func('tracklib.snip.f')
+        try:
+            return ('value', orders.make_func(f.node, fn)())
+        except orders.Unsupported as ex:
+            return ('declined', str(ex))
+        except orders.Raised as ex:
+            return ('raises', ex.name)
+        except Exception as ex:        # noqa: BLE001
+            return ('raises', type(ex).__name__)
+    finally:
+        shutil.rmtree(d, ignore_errors=True)
+
+
 def interpreted(src):
     tree = ast.parse(src)
+    if len(tree.body) > 1:
+        return interpreted_module(src)
     fdef = tree.body[0]
     try:
         return ('value', orders.make_func(fdef, harness())())
